@@ -35,6 +35,9 @@ func corpusPrograms(env *kernel.Env) [][3]string {
 		if err != nil {
 			continue
 		}
+		if _, err := os.Stat(filepath.Join(env.VerifDir, "corpus", e.Name(), "verif-no-c07")); err == nil {
+			continue // makes a generator die with a fatal stack overflow (not this property's business)
+		}
 		out = append(out, [3]string{e.Name(), filepath.Join(env.VerifDir, "corpus", e.Name()), string(b)})
 	}
 	return out
